@@ -248,6 +248,17 @@ impl varlink::Interface for Scripted {
                                 Some(json!({"token": token, "i": idx})),
                             ))
                         }
+                        // the standard error helpers of CallTrait, usable in mid-stream like any reply
+                        "ei" | "em" | "en" => {
+                            let idx = i;
+                            i += 1;
+                            let arg = format!("{}#{}", token.as_str().unwrap_or(""), idx);
+                            match base {
+                                "ei" => call.reply_invalid_parameter(arg),
+                                "em" => call.reply_method_not_found(arg),
+                                _ => call.reply_method_not_implemented(arg),
+                            }
+                        }
                         _ => continue,
                     };
                     lock(&self.rec).op_results.push(OpResult {
